@@ -1,6 +1,7 @@
 package main
 
 import (
+	"math"
 	"fmt"
 	"math/big"
 	"strings"
@@ -278,6 +279,14 @@ func init() {
 		// an arbitrary non-negative duration (monotonic clock): top bit cleared
 		d := e.ts.App(BV(64), "bvlshr", e.ts.Var("since", BV(64)), e.ts.BVInt(64, 1))
 		setRes(st, x, d)
+		return true
+	}
+	models["(time.Duration).Seconds"] = func(e *Engine, st *State, x *ssa.Call, args []Value) bool {
+		// float64(d)/1e9: differs from Go's float64(sec)+float64(nsec)/1e9 in the last bits only
+		// (sign and zero-ness agree); bvsdiv by 1e9 is avoided on purpose.
+		ts := e.ts
+		f := ts.App(F64, "(_ to_fp 11 53) RNE", args[0].(*Term))
+		setRes(st, x, ts.App(F64, "fp.div RNE", f, ts.FPConstBits(F64, math.Float64bits(1e9))))
 		return true
 	}
 	models["(time.Time).IsZero"] = func(e *Engine, st *State, x *ssa.Call, args []Value) bool {
